@@ -235,7 +235,7 @@ pub fn run(cfg: &Cfg, rep: &mut Rep) {
     let sh = rep.shard as usize;
     let n = NSHARDS as usize;
     for (i, &x) in lat.iter().enumerate() {
-        if i % n != sh {
+        if i % n != sh || cfg.fuzz {
             continue;
         }
         let d = mk(x);
@@ -249,6 +249,7 @@ pub fn run(cfg: &Cfg, rep: &mut Rep) {
     let mut r = Rng::new(cfg.seed, 0x1400 + sh as u64);
     let nrand = cfg.budget(8_000_000);
     for k in 0..nrand {
+        let k = cfg.k(k, &mut r);
         let s = rand_step(&mut r);
         let d = match k % 8 {
             0 => {
